@@ -14,7 +14,7 @@ PARTIAL = ('proved: Welch-Satterthwaite for any number of independent inputs (fi
 ASSUMPTIONS = ['rounding not bounded by proof']
 TRUSTED = ['Coq Reals library']
 
-def correspondence(rng, tier):
+def _base_correspondence(rng, tier):
     n = 260 if tier == 'quick' else 4000
     r = kernel.run_kernel_corr(rng, n, 'df', 'C05')
     # ensembles extended by append_real_ensemble (regression predictions): the fit machine of C13
@@ -190,3 +190,14 @@ def kf_C05_partial_complex_pair():
         return (True, 'IndexError')
     except Exception as ex:
         return (True, repr(ex))
+
+def correspondence(rng, tier):
+    r = _base_correspondence(rng, tier)
+    # extra_corr: complex_dof_programs: Willink-Hall and Welch-Satterthwaite with complex pairs (independent, ensemble, partial use, failing then succeeding dof, real-ensemble complex results), model CKernel.v
+    f = __import__('cgen').run_ckernel_corr(rng, 'dof', 'C05c', tier=tier)
+    r['mismatches'] += f.get('mismatches', [])
+    r['programs'] += f.get('programs', 0); r['steps'] += f.get('steps', 0)
+    r['distinct'] = r.get('distinct', 0) + f.get('distinct', 0)
+    r.setdefault('distribution', {})['complex_dof_programs'] = f.get('programs', 0)
+    r['rule'] = r.get('rule', '') + '; plus complex_dof_programs: Willink-Hall and Welch-Satterthwaite with complex pairs (independent, ensemble, partial use, failing then succeeding dof, real-ensemble complex results), model CKernel.v'
+    return r
